@@ -38,7 +38,7 @@ def run(check):
         g["family"] = fam
         items.append((case, sem, g))
     # dedicated workloads: many equal steps finishing at the same moment, and many loop items failing at the same moment
-    from ..model import Expr, In, Ref, Program, Step
+    from ..model import Expr, In, Ref, Program, Step, Opt
     for j in range(check.pick(240, 800)):
         rng = random.Random(derive_seed(check.seed, "c17-sim", j))
         if j % 4 != 1:
@@ -168,6 +168,18 @@ def run(check):
             case["mode"] = "papi"
             case["extra"] = {"workers": rng.choice([4, 8, 12]), "iterations": 1, "share_prepared": False}
             g["family"] = "first-parse-in-parallel"
+            first.append((case, sem, g))
+        # overlapping runs in which steps fail to deploy and crash at the same moment, as the first thing a fresh process does
+        # (the engine's failure reports are converted by code that may build package-level state lazily)
+        for j in range(check.pick(10, 40)):
+            rng = random.Random(derive_seed(check.seed, "c17-first-fault", j))
+            k = rng.choice([2, 3, 4])
+            steps = [gen.plugin_step("f%d" % q, Expr(In("tag"))) for q in range(k)]
+            outs = {"report": dict({"d%d" % q: Opt(Ref("f%d" % q, "deploy_failed", "error"), True) for q in range(k)}, **{"c%d" % q: Opt(Ref("f%d" % q, "crashed", "error"), True) for q in range(k)})}
+            oc = {"f%d" % q: ("deployfail" if (q + j) % 2 else "crash") for q in range(k)}
+            g = {"program": Program(steps, outs, gen.BASE_INPUT), "scripts": gen.make_scripts(steps, oc), "input": {"tag": "T"}, "shape": "failure-reports-in-overlapping-runs", "family": "first-failure-reports-in-parallel", "outcome": oc}
+            case, sem = runfam.build_case("c17-ff%04d" % j, g, no_events=True)
+            case["runs"] = [{"input": {"tag": "T%d" % q}, "parallel": True, "tag": "r%d" % q} for q in range(rng.choice([4, 8]))]
             first.append((case, sem, g))
         items += first
         out.update(rn.run_cases([c for c, _s, _g in first], per_case_timeout=75, chunk=1))
